@@ -109,6 +109,14 @@ impl Compiler
 		mut declarations: Vec<common::Declaration>,
 	) -> Result<Result<Vec<resolved::Declaration>, error::Errors>, anyhow::Error>
 	{
+		// Forward declare all structures as opaque types so that pointer types
+		// are valid (because pointers do not affect container depth).
+		// Also make sure that cyclical structures are poisoned; they are not
+		// sorted among the containers, yet the containers may point to them.
+		for declaration in &declarations
+		{
+			self.typer.forward_declare_structure(declaration);
+		}
 		// Sort the declarations so that the functions are at the end and
 		// the constants and structures are declared in the right order.
 		declarations.sort_by_key(|x| scoper::get_container_depth(x, u32::MAX));
@@ -130,13 +138,7 @@ impl Compiler
 		are_all_containers: bool,
 	) -> Result<Result<Vec<resolved::Declaration>, error::Errors>, anyhow::Error>
 	{
-		// Forward declare all structures as opaque types so that pointer types
-		// are valid (because pointers do not affect container depth).
-		// Also make sure that cyclical structures are poisoned.
-		for declaration in &declarations
-		{
-			self.typer.forward_declare_structure(declaration);
-		}
+		// Forward declare all structures in the IR as well.
 		for name in declarations.iter().filter_map(scoper::get_structure_name)
 		{
 			self.generator.forward_declare_structure(name)?;
